@@ -66,8 +66,8 @@ def gen_info_case(rng):
     u = next(_uid)
     names = [f"a{u}", f"b{u}"]
     n = 12   # indices with two digits: every place that prints or parses "q<i>" must cope
-    kind = rng.choice(["sym", "sym", "sym", "sym", "arr", "arr2", "cplx", "lit", "litarr"])
-    cval = (lambda: complex(dy(rng), dy(rng))) if kind == "cplx" else (lambda: dy(rng, nonzero=rng.random() < 0.8))
+    kind = rng.choice(["sym", "sym", "sym", "sym", "arr", "arr2", "cplx", "cfun", "cfun", "cfun", "carr", "lit", "litarr"])
+    cval = (lambda: complex(dy(rng), dy(rng))) if kind in CPLX_KINDS else (lambda: dy(rng, nonzero=rng.random() < 0.8))
     meas = {m: cval() for m in INFO_MODES if rng.random() < 0.7}
     free = {}
     for nm in names:
@@ -80,6 +80,12 @@ def gen_info_case(rng):
         p = {"one": mk()}
     elif kind == "cplx":
         p = {"one": px.gen_poly(rng, min(depth, 3), names, INFO_MODES)}
+    elif kind == "cfun":
+        # re / im / conjugate / Abs / arg / exp(I x) of heterodyne (complex) outcomes
+        p = {"one": px.gen_cexpr(rng, rng.randint(0, 3), INFO_MODES, (), names, real=rng.random() < 0.7)}
+    elif kind == "carr":
+        p = {"arr": [px.gen_cexpr(rng, rng.randint(0, 2), INFO_MODES, (), names, real=rng.random() < 0.7)
+                     for _ in range(rng.randint(2, 3))]}
     elif kind == "arr":
         p = {"arr": [mk() if rng.random() < 0.7 else px.num(dy(rng)) for _ in range(rng.randint(2, 3))]}
     elif kind == "arr2":
@@ -96,6 +102,7 @@ def gen_info_case(rng):
 
 
 INFO_MODES = [0, 1, 2, 9, 10, 11]
+CPLX_KINDS = ("cplx", "cfun", "carr")
 
 
 def meas_env(case):
@@ -167,7 +174,7 @@ def info_one(ctx, sf, case, reqs, pend):
         return
     env_f = effective_free(case["free"])
     env_m = meas_env(case)
-    cplx = case["kind"] == "cplx"
+    cplx = case["kind"] in CPLX_KINDS
     f32 = case.get("dtype") == "f32"
     rp = dict(kind="info", case=case)
     try:
@@ -246,8 +253,11 @@ def info_one(ctx, sf, case, reqs, pend):
                 ctx.fail("evaluate-wrong-shape", f"par_evaluate returns shape {np.shape(real[1])} for a parameter of "
                          f"shape {np.shape(ref)}", rp)
             elif not px.close(ref, np.asarray(real[1]), 2e-4 if f32 else 1e-9):
-                ctx.fail("evaluate-wrong-value", f"par_evaluate={real[1]} independent evaluation={ref}", rp)
+                ctx.fail("evaluate-wrong-value", f"the parameter is stored as {obj}; par_evaluate={real[1]}, independent "
+                         f"evaluation of the expression as written={ref} (outcomes {env_m}, free {env_f})", rp)
         ctx.tally("info_bound")
+    except px.Unsupported:
+        ctx.tally("info_reference_refused")      # e.g. arg() on its branch cut
     except px.Unbound as ub:
         # the atom must still be in the stored expression (SymPy may have cancelled it)
         still = any(w is not None and ((ub.kind == "unbound" and ub.what in px.atoms(w, "f")) or
@@ -286,7 +296,7 @@ def info_compare(ctx, case, got, model):
         env_f = effective_free(case["free"])
         env_m = meas_env(case)
         trees = trees_of(case["p"])
-        if not all(px.well_conditioned(t, env_f, env_m, cplx=case["kind"] == "cplx") for t in trees):
+        if not all(px.well_conditioned(t, env_f, env_m, cplx=case["kind"] in CPLX_KINDS) for t in trees):
             ctx.tally("info_illconditioned_skipped")
             return
         mv = px.pval_fold(model["eval"]["ok"])
@@ -379,6 +389,24 @@ def run_free_script(sf, script):
                 out.append(None)
             msteps.append(dict(do="lookup", name=st["name"]))
     return out, msteps
+
+
+def assumptions_oracle(ctx, sf):
+    """documented behaviour pinned: a measured or free parameter may stand for any number (real, negative, complex
+    heterodyne outcome, array, tensor); its symbol therefore carries NO SymPy assumption that would license a
+    rewriting at construction (re/im/conjugate/Abs/sign/sqrt(x**2)/sin(pi x) …) — only commutativity"""
+    prog = sf.Program(12)
+    for what, x in (("MeasuredParameter", prog.reg_refs[10].par), ("FreeParameter", prog.params("asm%d" % next(_uid)))):
+        ctx.oracle_cases += 1
+        bad = {a: getattr(x, "is_" + a) for a in ("real", "extended_real", "complex", "imaginary", "positive", "negative",
+                                                  "nonnegative", "nonzero", "zero", "integer", "rational", "finite",
+                                                  "even", "odd", "algebraic", "hermitian")
+               if getattr(x, "is_" + a) is not None}
+        if x.is_commutative is not True:
+            bad["commutative"] = x.is_commutative
+        if bad:
+            ctx.fail("symbol-assumptions", f"{what} symbols carry SymPy assumptions {bad}: expressions of them are "
+                     f"rewritten at construction as if the value had these properties", dict(kind="assumptions"))
 
 
 def free_isolation_oracle(ctx, sf, variant):
@@ -631,14 +659,35 @@ def expand_compare(ctx, sf, case, sym, model):
 USE_OPS = ["Dgate", "Rgate", "Sgate", "Kgate"]
 
 
+def cv(v):
+    """a scripted outcome: a number, or {"re":…, "im":…} for a heterodyne (complex) outcome"""
+    return complex(v["re"], v["im"]) if isinstance(v, dict) else v
+
+
 def gen_history(rng, shots_variant=False):
+    """(regenerates until every operation of the history is applied with a real number — a complex gate parameter is
+    refused by the operations — and the independent evaluator accepts it, e.g. no arg() on its branch cut)"""
+    for _ in range(12):
+        h = _gen_history(rng, shots_variant)
+        try:
+            tr, _err = history_reference(None, h, strict=True)
+            return h
+        except (px.Unsupported, ValueError, TypeError):
+            continue
+    return _gen_history(rng, shots_variant, cx=False)
+
+
+def _gen_history(rng, shots_variant=False, cx=None):
     u = next(_uid)
     n = rng.choice([2, 3, 4, 4, 11, 12])
     modes_all = list(range(n)) if n <= 4 else [0, 1, n - 3, n - 2, n - 1]   # two-digit indices on large registers
     name = f"h{u}"
     free = {name: dy(rng)}
     opt = rng.choice(["compile", "method"]) if (not shots_variant) and rng.random() < 0.35 else False
-    segs, measured = [], []
+    cx = ((not shots_variant) and rng.random() < 0.35) if cx is None else cx     # heterodyne (complex) outcomes
+    if cx and opt == "compile":
+        opt = "method"       # (the fock compiler used for the recording backend refuses MeasureHeterodyne)
+    segs, measured, kindm = [], [], {}
     for s in range(rng.randint(1, 4)):
         cmds = []
         for _ in range(rng.randint(1, 4)):
@@ -649,18 +698,32 @@ def gen_history(rng, shots_variant=False):
                 modes = rng.sample(modes_all, rng.choice([1, 1, 2]) if n > 1 else 1)
                 cmds.append(dict(k="measure", modes=modes, vals=[dy(rng) for _ in modes],
                                  how="homodyne" if len(modes) == 1 and rng.random() < 0.7 else "fock"))
+                for m in modes:
+                    kindm[m] = "r"
+                if cx and len(modes) == 1 and rng.random() < 0.65:
+                    cmds[-1].update(how="heterodyne", vals=[{"re": dy(rng), "im": dy(rng)}])
+                    kindm[modes[0]] = "c"
                 measured += [m for m in modes if m not in measured]
             elif k == "prepare":
                 cmds.append(dict(k="prepare", mode=rng.choice(modes_all), how=rng.choice(["Vacuum", "Coherent"])))
             else:
                 prev_use = [c for sg in segs + [cmds] for c in sg if c["k"] == "use"]
-                if prev_use and rng.random() < 0.3:
+                if prev_use and rng.random() < 0.3 and not cx:
                     # the same operation (same class, same expression) applied again, elsewhere
                     c0 = rng.choice(prev_use)
                     cmds.append(dict(c0, target=rng.choice(modes_all)))
                     continue
                 pool = measured if (measured and rng.random() < 0.88) else modes_all
-                t = px.gen_expr(rng, rng.randint(0, 2), [name] if rng.random() < 0.3 else [], pool, p_atom=0.5)
+                cpool = [m for m in pool if kindm.get(m) == "c"]
+                rpool = [m for m in pool if kindm.get(m) != "c"]
+                if cpool and rng.random() < 0.8:
+                    # feed-forward of a complex outcome through re / im / conjugate / Abs / arg
+                    t = px.gen_cexpr(rng, rng.randint(0, 2), cpool, [m for m in rpool if m in measured],
+                                     [name] if rng.random() < 0.3 else [], real=True)
+                    pool = [m for m in rpool if m in measured] or modes_all
+                else:
+                    pool = rpool or [m for m in modes_all if kindm.get(m) != "c"] or modes_all
+                    t = px.gen_expr(rng, rng.randint(0, 2), [name] if rng.random() < 0.3 else [], pool, p_atom=0.5)
                 if not px.atoms(t, "m") and (opt or not px.atoms(t, "f")):
                     t = {"add": [t, {"m": rng.choice(pool)}]}
                 cmds.append(dict(k="use", e=t, op=rng.choice(USE_OPS), dagger=rng.random() < 0.4,
@@ -674,6 +737,7 @@ def gen_history(rng, shots_variant=False):
                     rd = [m for m in px.atoms(t, "m") if m in measured]
                     if rd:
                         cmds.append(dict(k="measure", modes=[rd[0]], vals=[dy(rng)], how="homodyne"))
+                        kindm[rd[0]] = "r"
         segs.append(cmds)
     if shots_variant:
         for c in segs[0]:
@@ -695,14 +759,14 @@ def gen_history(rng, shots_variant=False):
             if c["k"] == "use" and rng.random() < 0.5:
                 c["target"] = n          # the new mode has the next free index
     build = rng.choice(["before", "before", "lazy"])
-    return dict(n=n, free=free, segs=segs, build=build, shots=3 if shots_variant else 1, opt=opt,
+    return dict(n=n, free=free, segs=segs, build=build, shots=3 if shots_variant else 1, opt=opt, cx=cx,
                 share=rng.random() < 0.6,
                 run=rng.choice(["list", "successive"]) if build == "before" and not shots_variant else "successive",
                 decoy=rng.random() < 0.5, rerun=rng.choice([None, None, "fresh", "reset"]) if build == "before" else None,
                 premature=build == "before" and rng.random() < 0.35, suffix=rng.random() < 0.4)
 
 
-def history_reference(sf, h):
+def history_reference(sf, h, strict=False):
     """flat semantics: every use sees the latest outcome of its own modes; first missing atom aborts.
     returns (trace of (target, applied first argument), error or None)"""
     latest, trace = {}, []
@@ -710,7 +774,7 @@ def history_reference(sf, h):
         for c in cmds:
             if c["k"] == "measure":
                 for m, v in zip(c["modes"], c["vals"]):
-                    latest[m] = np.array(v, dtype=float) if isinstance(v, list) else v
+                    latest[m] = np.array(v, dtype=float) if isinstance(v, list) else cv(v)
             elif c["k"] == "use":
                 try:
                     v = px.fold(c["e"], h["free"], latest)
@@ -718,7 +782,9 @@ def history_reference(sf, h):
                         v = [v, px.fold(c["e2"], h["free"], latest)]
                 except px.Unbound as ub:
                     return trace, f"{ub.kind}:{ub.what}"
-                v = np.asarray(v, dtype=float)
+                if strict and np.any(np.abs(np.imag(v)) > 1e-12):
+                    raise ValueError("complex gate parameter")
+                v = np.asarray(np.real(v), dtype=float)
                 trace.append((c["target"], (-v if c["dagger"] else v).tolist()))
     return trace, None
 
@@ -735,6 +801,8 @@ def _fill(sf, prog, cmds, free_name, cache=None):
                 regs = [R[m] for m in c["modes"]]
                 if c["how"] == "homodyne":
                     ops.MeasureHomodyne(0.0) | regs[0]
+                elif c["how"] == "heterodyne":
+                    ops.MeasureHeterodyne() | regs[0]
                 else:
                     ops.MeasureFock() | regs
             elif c["k"] == "prepare":
@@ -773,7 +841,7 @@ def _outcomes(h, segs=None):
     for cmds in (segs if segs is not None else h["segs"]):
         for c in cmds:
             if c["k"] == "measure":
-                v = np.array(c["vals"], dtype=float)
+                v = np.array([cv(x) for x in c["vals"]])
                 out.append((tuple(c["modes"]), v.T if v.ndim == 2 else v.reshape(1, -1)))
     return out
 
@@ -839,6 +907,9 @@ def history_real(sf, h):
         except RuntimeError as e:   # a successor whose register starts with deleted / created modes is refused
             if "Register mismatch" not in str(e):
                 raise
+        except (ValueError, TypeError) as e:     # run out of context a stale COMPLEX outcome may reach a gate / a real-only
+            if not h.get("cx"):                   # function (atan2) that refuses it
+                raise
 
     def attempt(eng, backend):
         try:
@@ -870,6 +941,9 @@ def history_real(sf, h):
         except RuntimeError as e:
             if "Register mismatch" not in str(e):
                 raise
+        except (ValueError, TypeError) as e:
+            if not h.get("cx"):
+                raise
     if h.get("rerun") and h["build"] == "before":
         # the same programs again: their RegRefs still hold the values of the first run
         if h["rerun"] == "fresh":
@@ -891,7 +965,7 @@ def final_latest(h):
     for cmds in h["segs"]:
         for c in cmds:
             if c["k"] == "measure":
-                latest.update(dict(zip(c["modes"], c["vals"])))
+                latest.update(dict(zip(c["modes"], [cv(v) for v in c["vals"]])))
     return latest
 
 
@@ -902,7 +976,7 @@ def history_model_req(sf, h, own0=None):
         ms = []
         for c in cmds:
             if c["k"] == "measure":
-                ms.append({"measure": c["modes"], "vals": [rat(v) for v in c["vals"]]})
+                ms.append({"measure": c["modes"], "vals": [px.val_tree(cv(v)) for v in c["vals"]]})
             elif c["k"] == "prepare":
                 ms.append({"prepare": c["mode"]})
             elif c["k"] in ("del", "new"):
@@ -912,7 +986,7 @@ def history_model_req(sf, h, own0=None):
                 ms.append({"useArr": es} if "e2" in c else {"use": es[0]})
         segs.append(ms)
     return {"op": "param.engine", "free": [[k, rat(v)] for k, v in h["free"].items()], "segs": segs,
-            "query": list(range(h["n"])), "own0": [[m, rat(v)] for m, v in (own0 or {}).items()]}
+            "query": list(range(h["n"])), "own0": [[m, px.val_tree(v)] for m, v in (own0 or {}).items()]}
 
 
 def canon_tree(sf, t, n, names):
@@ -931,6 +1005,11 @@ def _is_zero(t):
     return not px.atoms(t, "m") and not px.atoms(t, "f") and px.fold(t) == 0
 
 
+def _conditioned(h):
+    dummy = complex(0.75, 0.5) if h.get("cx") else 1.0
+    return all(px.well_conditioned(t, h["free"], {m: dummy for m in range(h["n"] + 1)}, 1e4, cplx=True) for t in _use_trees(h))
+
+
 def _use_trees(h):
     return [t for cmds in h["segs"] for c in cmds if c["k"] == "use" for t in [c["e"]] + ([c["e2"]] if "e2" in c else [])]
 
@@ -947,9 +1026,11 @@ def history_one(ctx, sf, h, reqs, pend):
         cmds[:] = [c for c in cmds if not (c["k"] == "use" and _is_zero(c["e"]) and ("e2" not in c or _is_zero(c["e2"])))]
     rp = dict(kind="history", case=h)
     ref_tr, ref_err = history_reference(sf, h)
-    conditioned = all(px.well_conditioned(t, h["free"], {m: 1.0 for m in range(h["n"] + 1)}, 1e4) for t in _use_trees(h))
+    conditioned = _conditioned(h)
     ctx.count("history_%dseg_%s_%s%s" % (len(h["segs"]), h["build"], h["run"], "_opt" + str(h["opt"]) if h.get("opt") else ""),
               h, True, sample=h)
+    if h.get("cx"):
+        ctx.tally("history_heterodyne")
     try:
         tr, err, again, suffix = history_real(sf, h)
     except Exception as e:
@@ -1000,8 +1081,12 @@ def history_compare(ctx, h, got, model):
         ctx.disagree("engine.error", h, model["err"], got["err"])
         return
     if got["cond"]:
-        mt = [float(px.fold(t)) for t in model["trace"]]
-        rt = [float(x) for a in got["trace"] for x in np.ravel(a[1])]
+        try:
+            mt = [float(np.real(px.fold(t))) for t in model["trace"]]
+        except px.Unsupported:
+            ctx.tally("history_model_trace_refused")     # arg() on its branch cut
+            return
+        rt = [float(np.real(x)) for a in got["trace"] for x in np.ravel(a[1])]
         if h.get("opt"):
             # the optimizer may reorder independent commands; the model runs the written order
             if got["err"]:
@@ -1070,7 +1155,7 @@ def session_real(sf, h):
         ps = [progs[k] for k in call]
         segs = []
         for p, k in zip(ps, call):
-            own = [[int(i), px.val_tree(float(np.squeeze(r.val)))] for i, r in p.reg_refs.items()
+            own = [[int(i), px.val_tree(np.squeeze(r.val).item())] for i, r in p.reg_refs.items()
                    if r.val is not None and np.size(r.val) == 1]
             segs.append({"own": own, "cmds": history_model_req(sf, dict(h, segs=[h["segs"][k]]))["segs"][0]})
         backend.calls.clear()
@@ -1084,7 +1169,14 @@ def session_real(sf, h):
             if "Register mismatch" not in str(e):
                 raise
             return out   # a refused call ends the comparison (register bookkeeping is not this model's subject)
-        out.append(({"run": segs}, [float(x) for a in _trace(backend) for x in np.ravel(a[1])], err))
+        except (ValueError, TypeError) as e:
+            # after a rolled-back segment an older COMPLEX outcome can be handed to a gate / a real-only function that
+            # refuses complex arguments: legitimate, ends the comparison
+            if not h.get("cx"):
+                raise
+            return out
+        out.append(({"run": segs}, [(complex(x) if np.imag(x) != 0 else float(np.real(x)))
+                                     for a in _trace(backend) for x in np.ravel(a[1])], err))
     return out
 
 
@@ -1104,7 +1196,7 @@ def session_one(ctx, sf, h, reqs, pend):
         ctx.fail("session-crash", f"a session of eng.run calls raises {type(e).__name__}: {str(e)[:200]}",
                  dict(kind="session", case=h))
         return
-    conditioned = all(px.well_conditioned(t, h["free"], {m: 1.0 for m in range(h["n"] + 1)}, 1e4) for t in _use_trees(h))
+    conditioned = _conditioned(h)
     if ctx.proof_ok and res:
         reqs.append({"op": "param.session", "free": [[k, rat(v)] for k, v in h["free"].items()],
                      "events": [r[0] for r in res]})
@@ -1126,7 +1218,11 @@ def session_compare(ctx, h, got, model):
             ctx.disagree("session.error", dict(h, call=i), m["err"], err)
             return
         if got["cond"]:
-            mt = [px.fold(t) for t in m["trace"]]
+            try:
+                mt = [px.fold(t) for t in m["trace"]]
+            except px.Unsupported:
+                ctx.tally("session_model_trace_refused")
+                return
             if len(mt) != len(tr) or not all(px.close(a, b) for a, b in zip(mt, tr)):
                 ctx.disagree("session.trace", dict(h, call=i), mt, tr)
                 return
@@ -1304,9 +1400,16 @@ def gen_prog(rng, allow_meas=True, nmax=4):
     ops, latest = [], {}
     L = rng.randint(3, 8)
     for i in range(L):
-        k = rng.choice(["g1", "g1", "g1", "g2", "g2", "prep", "meas", "meas", "fourier", "loss"])
-        if k == "meas" and not allow_meas:
+        k = rng.choice(["g1", "g1", "g1", "g2", "g2", "prep", "meas", "meas", "hd", "fourier", "loss"])
+        if k in ("meas", "hd") and not allow_meas:
             k = "g1"
+        if k == "hd":
+            # heterodyne measurement: a COMPLEX outcome (post-selected), fed forward through re / im / conjugate / Abs / arg
+            m = rng.choice(modes_all)
+            c = complex(dy(rng, -8, 8), dy(rng, -8, 8))
+            ops.append(dict(cls="MeasureHeterodyne", regs=[m], pars=[], select={"re": c.real, "im": c.imag}))
+            latest[m] = c
+            continue
         if k == "meas":
             m = rng.choice(modes_all)
             v = dy(rng, -8, 8)
@@ -1330,12 +1433,20 @@ def gen_prog(rng, allow_meas=True, nmax=4):
                 pars.append(px.num(dy(rng, -4, 4, 8, nonzero=first) if not (cls in PREP and j in (0, 2))
                                    else abs(dy(rng, -4, 4, 8))))
                 continue
+            cm = [m for m, v in latest.items() if isinstance(v, complex)]
+            rm = [m for m, v in latest.items() if not isinstance(v, complex)]
             for _try in range(60):
-                t = px.gen_expr(rng, rng.randint(0, 3), names, list(latest), p_atom=0.45)
+                if cm and rng.random() < 0.75:
+                    t = px.gen_cexpr(rng, rng.randint(0, 2), cm, rm, names, real=True)
+                else:
+                    t = px.gen_expr(rng, rng.randint(0, 3), names, rm, p_atom=0.45)
                 if not (px.atoms(t, "f") or px.atoms(t, "m")):
                     continue
-                if px.well_conditioned(t, free, latest, 100):
+                if px.well_conditioned(t, free, latest, 100, cplx=True):
                     v = px.fold(t, free, latest)
+                    if abs(np.imag(v)) > 1e-12:
+                        continue
+                    v = float(np.real(v))
                     if 1e-3 < abs(v) <= lim and not (cls in PREP and v < 0):
                         break
             else:
@@ -1353,7 +1464,8 @@ def gen_prog(rng, allow_meas=True, nmax=4):
             other = [o for o in ops[:-1] if o["cls"] == cls and len(o["pars"]) == len(pars)]
             if other and rng.random() < 0.6:
                 twin["pars"] = [copy.deepcopy(other[-1]["pars"][0])] + twin["pars"][1:]
-                ok = all(px.well_conditioned(t, free, latest, 100) for t in twin["pars"])
+                ok = all(px.well_conditioned(t, free, latest, 100) and abs(px.fold(t, free, latest)) > 1e-3
+                         for t in twin["pars"][:1])
                 if not ok:
                     twin["pars"] = copy.deepcopy(op["pars"])
             if k != "prep":
@@ -1387,14 +1499,16 @@ def build_prog(sf, spec, numeric, cut=None, jitter=0.0, share=False):
                     if "n" in t:
                         pars.append(px.numval(t))
                     elif numeric:
-                        pars.append(float(px.fold(t, spec["free"], latest)) * (1 + jitter))
+                        pars.append(float(np.real(px.fold(t, spec["free"], latest))) * (1 + jitter))
                     else:
                         pars.append(px.to_sympy(t, fobj, q))
                 kw = {}
                 if op.get("select") is not None:
-                    kw["select"] = op["select"]
-                    latest[op["regs"][0]] = op["select"]
-                key = json.dumps([op["cls"], op["pars"], kw, [latest.get(m) for t in op["pars"] for m in px.atoms(t, "m")]],
+                    sel = op["select"]
+                    sel = complex(sel["re"], sel["im"]) if isinstance(sel, dict) else sel
+                    kw["select"] = sel
+                    latest[op["regs"][0]] = sel
+                key = json.dumps([op["cls"], op["pars"], str(kw), [str(latest.get(m)) for t in op["pars"] for m in px.atoms(t, "m")]],
                                  sort_keys=True)
                 if share and key in cache:
                     o = cache[key]       # the user built this operation once and applies it again
@@ -1446,6 +1560,9 @@ def prog_one(ctx, sf, spec, cfg):
         kw = dict(args=args) if args else {}
         res = eng.run(progs if len(progs) > 1 else progs[0], compile_options=co or None, **kw)
         return state_vec(res.state, cfg["backend"]), applied(eng)
+    if any(op["cls"] == "MeasureHeterodyne" for op in spec["ops"]):
+        cfn = any(f'"{f}"' in json.dumps(op["pars"]) for op in spec["ops"] for f in ("re", "im", "conjugate", "arg", "Abs"))
+        ctx.tally("prog_heterodyne_feedforward" if cfn else "prog_heterodyne")
     num_progs = build_prog(sf, spec, True)
     try:
         ref, ref_applied = run(num_progs, None)
@@ -1468,12 +1585,13 @@ def prog_one(ctx, sf, spec, cfg):
         else:
             got, got_applied = run(sym_progs, args)
     except Exception as e:
-        ctx.fail("symbolic-program-raises", f"the substituted program runs, the symbolic one raises "
+        sig = "symbolic-program-raises"
+        ctx.fail(sig, f"the substituted program runs, the symbolic one raises "
                  f"{type(e).__name__}: {str(e)[:200]} [{cfg}]", rp)
         return
     # the finite-squeezing homodyne projection of the simulators has condition number ~1e7: rounding differences of
     # the parameters (1e-16) surface as ~1e-8 in the conditional state; without measurements 1e-14 is observed
-    has_meas = any(op["cls"] == "MeasureHomodyne" for op in spec["ops"])
+    has_meas = any(op["cls"] in ("MeasureHomodyne", "MeasureHeterodyne") for op in spec["ops"])
     tol = (1e-6 if (cfg["backend"] == "fock" or has_meas) else 1e-8) * max(1.0, float(np.max(np.abs(ref))))
     if got.shape != ref.shape:
         ctx.fail("symbolic-vs-substituted-state", f"final states have different shapes [{cfg}]", rp)
@@ -1520,10 +1638,13 @@ def prog_one(ctx, sf, spec, cfg):
 
 
 def gen_cfg(rng, spec, k):
-    has_meas = any(op["cls"] == "MeasureHomodyne" for op in spec["ops"])
+    has_meas = any(op["cls"] in ("MeasureHomodyne", "MeasureHeterodyne") for op in spec["ops"])
     backend = "gaussian"
     compiler = rng.choice([None, "gaussian", "gaussian"])
     r = rng.random()
+    has_hd = any(op["cls"] == "MeasureHeterodyne" for op in spec["ops"])
+    if has_hd:
+        r = 0.05 if r < 0.35 else 0.9      # heterodyne: Gaussian and bosonic backends only
     if r < 0.12:
         backend, compiler = "bosonic", rng.choice([None, "bosonic"])
     elif r < 0.2 and spec["n"] <= 2:
@@ -1588,6 +1709,8 @@ def dispatch(ctx, sf, item, reqs, pend):
         import random
         for sd in range(20):
             cache_order_oracle(ctx, sf, random.Random(sd))
+    elif k == "assumptions":
+        assumptions_oracle(ctx, sf)
     elif k == "free_isolation":
         free_isolation_oracle(ctx, sf, item["variant"])
     elif k == "free":
@@ -1617,6 +1740,7 @@ def run(ctx, sf):
         safe(ctx, sf, json.loads(f.read_text()), reqs, pend)
     for v in ("create", "bind"):
         free_isolation_oracle(ctx, sf, v)
+    assumptions_oracle(ctx, sf)
     for _ in range(ctx.n(1100, 20000)):
         safe(ctx, sf, dict(kind="info", case=gen_info_case(rng)), reqs, pend)
         if len(reqs) > 2500:
@@ -1692,7 +1816,7 @@ def search(ctx, sf):
     seen = 0
     for d in list(ctx.disagreements):
         case = d.get("case")
-        if seen >= 12 or not (isinstance(case, dict) and "p" in case and "meas" in case and case.get("kind") != "cplx"):
+        if seen >= 12 or not (isinstance(case, dict) and "p" in case and "meas" in case and case.get("kind") not in CPLX_KINDS):
             continue
         seen += 1
         for h in directed_histories(case):
